@@ -674,3 +674,583 @@ Proof.
   - intros i j tn Hi Hj. apply V in Hi. apply V in Hj.
     destruct Hi as [[-> ->]|[-> ->]]; destruct Hj as [[-> E]|[-> E]]; try reflexivity; discriminate.
 Qed.
+
+(* ================= the whole page walk ================= *)
+(* a, a+d, a+2d, ... (len terms) *)
+Fixpoint zseq (d a : Z) (len : nat) : list Z :=
+  match len with O => [] | S l => a :: zseq d (a + d) l end.
+Definition up_from (a : Z) (len : nat) : list Z := zseq 1 a len.        (* [a; a+1; ...] *)
+Definition down_from (a : Z) (len : nat) : list Z := zseq (-1) a len.   (* [a; a-1; ...] *)
+
+(* number of pages of k entries that n entries fill *)
+Definition ceil_div (n k : Z) : Z := (n + k - 1) / k.
+
+(* the order in which a listing must visit the n positions (SortIdx, counted from 1) *)
+Definition walk_order (es : list entry) (desc : bool) : list Z :=
+  if desc then down_from (lenZ es) (length es) else up_from 1 (length es).
+
+(* every entry whose cursor the walk has to take - the first entry of page 2, 3, ... in the listing direction -
+   is parsable (0-based positions j*k ascending, n-1-j*k descending, for every j >= 1 inside the file) *)
+Definition boundaries_parsable (es : list entry) (k : nat) (desc : bool) : Prop :=
+  forall j, 1 <= j -> j * Z.of_nat k < lenZ es ->
+    valid_at es (if desc then lenZ es - 1 - j * Z.of_nat k else j * Z.of_nat k).
+
+Definition all_parsable (es : list entry) : Prop := forall i, 0 <= i < lenZ es -> valid_at es i.
+
+Lemma zseq_length d : forall len a, length (zseq d a len) = len.
+Proof. induction len as [|l IH]; intros a; [reflexivity|]. cbn [zseq length]. rewrite IH. reflexivity. Qed.
+
+Lemma zseq_app d : forall p q a, zseq d a (p + q) = zseq d a p ++ zseq d (a + Z.of_nat p * d) q.
+Proof.
+  induction p as [|p IH]; intros q a.
+  - cbn [plus zseq app]. replace (a + Z.of_nat 0 * d) with a by lia. reflexivity.
+  - cbn [plus zseq app]. rewrite IH. replace (a + d + Z.of_nat p * d) with (a + Z.of_nat (S p) * d) by lia. reflexivity.
+Qed.
+
+Lemma zseq_firstn d : forall p q a, firstn p (zseq d a (p + q)) = zseq d a p.
+Proof. induction p as [|p IH]; intros q a; [reflexivity|]. cbn [plus zseq firstn]. rewrite IH. reflexivity. Qed.
+
+Lemma zseq_nth d : forall len a j, (j < len)%nat -> nth_error (zseq d a len) j = Some (a + Z.of_nat j * d).
+Proof.
+  induction len as [|l IH]; intros a j Hj; [lia|].
+  destruct j as [|j]; cbn [zseq nth_error].
+  - f_equal. lia.
+  - rewrite IH by lia. f_equal. lia.
+Qed.
+
+Lemma zseq_In d : forall len a x, In x (zseq d a len) <-> exists j, 0 <= j < Z.of_nat len /\ x = a + j * d.
+Proof.
+  induction len as [|l IH]; intros a x; cbn [zseq In].
+  - split; [tauto|]. intros (j & Hj & _). lia.
+  - rewrite IH. split.
+    + intros [<-|(j & Hj & ->)]; [exists 0; split; lia|exists (j + 1); split; lia].
+    + intros (j & Hj & ->). destruct (Z.eq_dec j 0) as [->|Hne]; [left; lia|right; exists (j - 1); split; lia].
+Qed.
+
+Lemma zseq_NoDup d : d <> 0 -> forall len a, NoDup (zseq d a len).
+Proof.
+  intros Hd. induction len as [|l IH]; intros a; cbn [zseq]; constructor; [|apply IH].
+  rewrite zseq_In. intros (j & Hj & E). assert (E' : (j + 1) * d = 0) by lia. apply Z.mul_eq_0 in E'. lia.
+Qed.
+
+(* ---- GetRecords, LoadGeneralArticles: closed forms ---- *)
+Definition dir (desc : bool) : Z := if desc then -1 else 1.
+(* entries left in the listing direction, counting position idx itself *)
+Definition remn (es : list entry) (desc : bool) (idx : Z) : Z := if desc then idx else lenZ es + 1 - idx.
+Definition getl (es : list entry) (i : Z) : entry := match rd es (i - 1) with FOk e => e | _ => None end.
+Definition tag (es : list entry) (i : Z) : Z * entry := (i, getl es i).
+
+Lemma map_fst_tag es l : map fst (map (tag es) l) = l.
+Proof. rewrite map_map. cbn [tag fst]. apply map_id. Qed.
+
+Lemma grl_closed es desc : forall c idx, 0 <= remn es desc idx <= lenZ es ->
+  get_records_loop c es idx desc = map (tag es) (zseq (dir desc) idx (Nat.min c (Z.to_nat (remn es desc idx)))).
+Proof.
+  induction c as [|c IH]; intros idx Hr; [reflexivity|].
+  cbn [get_records_loop].
+  destruct ((idx =? 0) || (lenZ es <? idx)) eqn:E.
+  - assert (H0 : remn es desc idx = 0) by (destruct desc; cbn [remn] in *; bool_to_prop; lia).
+    rewrite H0. reflexivity.
+  - bool_to_prop. destruct E as [E1 E2].
+    destruct (rd_total es (idx - 1)) as [e He]; [destruct desc; cbn [remn] in *; lia|]. rewrite He.
+    replace (Nat.min (S c) (Z.to_nat (remn es desc idx)))
+      with (S (Nat.min c (Z.to_nat (remn es desc (idx + dir desc))))) by (destruct desc; cbn [remn dir] in *; lia).
+    cbn [zseq map]. f_equal.
+    + unfold tag, getl. rewrite He. reflexivity.
+    + replace (if desc then idx - 1 else idx + 1) with (idx + dir desc) by (destruct desc; cbn [dir]; lia).
+      apply IH. destruct desc; cbn [remn dir] in *; lia.
+Qed.
+
+Lemma load_page_start es k desc start : 1 <= remn es desc start <= lenZ es ->
+  load_page es start k desc =
+    fbind (FOk (get_records_loop (S k) es start desc)) (fun l =>
+      if Nat.eqb (length l) (S k) then FOk (firstn k l, nth_error l k) else FOk (l, None)).
+Proof.
+  intros Hr. unfold load_page, get_records.
+  destruct (Z.eqb_spec (lenZ es) 0) as [E|_]; [lia|].
+  replace ((start =? 0) && desc) with false.
+  2:{ destruct desc; cbn [remn] in Hr; [|rewrite andb_false_r; reflexivity]. destruct (Z.eqb_spec start 0); [lia|reflexivity]. }
+  destruct (Z.ltb_spec start 1) as [E|_]; [destruct desc; cbn [remn] in Hr; lia|]. reflexivity.
+Qed.
+
+(* a page that is followed by another one: k entries and the entry after them as the cursor *)
+Lemma load_page_full es k desc start :
+  1 <= remn es desc start <= lenZ es -> Z.of_nat k < remn es desc start ->
+  load_page es start k desc =
+    FOk (map (tag es) (zseq (dir desc) start k), Some (tag es (start + Z.of_nat k * dir desc))).
+Proof.
+  intros Hr Hk. rewrite load_page_start by exact Hr. cbn [fbind].
+  rewrite grl_closed by lia.
+  replace (Nat.min (S k) (Z.to_nat (remn es desc start))) with (k + 1)%nat by lia.
+  rewrite map_length, zseq_length. replace (k + 1)%nat with (S k) at 1 by lia. rewrite Nat.eqb_refl.
+  rewrite firstn_map, zseq_firstn. do 2 f_equal.
+  apply map_nth_error. apply zseq_nth. lia.
+Qed.
+
+(* the last page: what is left, no cursor *)
+Lemma load_page_last es k desc start :
+  1 <= remn es desc start <= lenZ es -> remn es desc start <= Z.of_nat k ->
+  load_page es start k desc = FOk (map (tag es) (zseq (dir desc) start (Z.to_nat (remn es desc start))), None).
+Proof.
+  intros Hr Hk. rewrite load_page_start by exact Hr. cbn [fbind].
+  rewrite grl_closed by lia.
+  replace (Nat.min (S k) (Z.to_nat (remn es desc start))) with (Z.to_nat (remn es desc start)) by lia.
+  rewrite map_length, zseq_length.
+  destruct (Nat.eqb_spec (Z.to_nat (remn es desc start)) (S k)) as [E|_]; [lia|]. reflexivity.
+Qed.
+
+Lemma ceil_div_step r k : 0 < k -> ceil_div r k = 1 + ceil_div (r - k) k.
+Proof.
+  intros Hk. unfold ceil_div. replace (r + k - 1) with ((r - k + k - 1) + 1 * k) by lia.
+  rewrite Z.div_add by lia. lia.
+Qed.
+Lemma ceil_div_one r k : 1 <= r <= k -> ceil_div r k = 1.
+Proof.
+  intros H. unfold ceil_div. replace (r + k - 1) with ((r - 1) + 1 * k) by lia.
+  rewrite Z.div_add by lia. rewrite Z.div_small by lia. reflexivity.
+Qed.
+Lemma ceil_div_pos r k : 1 <= r -> 0 < k -> 1 <= ceil_div r k.
+Proof.
+  intros Hr Hk. unfold ceil_div. pose proof (Z.div_str_pos (r + k - 1) k ltac:(lia)). lia.
+Qed.
+
+Lemma walk_S f es k desc start pages acc :
+  walk (S f) es k desc start pages acc =
+    match load_page es start k desc with
+    | FHang => FHang
+    | FErr c => FOk (c, pages, acc)
+    | FOk (items, next) =>
+        let acc' := acc ++ map fst items in
+        match next with
+        | None => FOk (0, pages + 1, acc')
+        | Some (_, None) => FOk (E_ATOI, pages + 1, acc')
+        | Some (_, Some (t, nm)) =>
+            match find es (lenZ es) t (Some nm) desc with
+            | FOk i => walk f es k desc i (pages + 1) acc'
+            | FErr c => FOk (c, pages + 1, acc')
+            | FHang => FHang
+            end
+        end
+    end.
+Proof. reflexivity. Qed.
+
+(* The walk from any position of the file whose remaining page boundaries are parsable: it serves the remaining
+   entries in order, in ceil(remaining / k) further pages, and needs no more fuel than there are entries left. *)
+Lemma walk_from es k desc : sorted es -> names_unique es -> (0 < k)%nat ->
+  forall fuel start pages acc,
+    1 <= remn es desc start <= lenZ es ->
+    (forall j, 1 <= j -> j * Z.of_nat k < remn es desc start -> valid_at es (start + j * Z.of_nat k * dir desc - 1)) ->
+    remn es desc start <= Z.of_nat fuel ->
+    walk fuel es k desc start pages acc =
+      FOk (0, pages + ceil_div (remn es desc start) (Z.of_nat k),
+           acc ++ zseq (dir desc) start (Z.to_nat (remn es desc start))).
+Proof.
+  intros Hs Hu Hk. induction fuel as [|f IH]; intros start pages acc Hr Hb Hf; [lia|].
+  rewrite walk_S.
+  destruct (Z_lt_le_dec (Z.of_nat k) (remn es desc start)) as [Hlt|Hle].
+  - rewrite (load_page_full es k desc start Hr Hlt).
+    set (nxt := start + Z.of_nat k * dir desc).
+    destruct (Hb 1 ltac:(lia) ltac:(lia)) as [[t nm] Hv].
+    replace (start + 1 * Z.of_nat k * dir desc - 1) with (nxt - 1) in Hv by (unfold nxt; lia).
+    assert (Eg : tag es nxt = (nxt, Some (t, nm))) by (unfold tag, getl; rewrite Hv; reflexivity).
+    rewrite Eg. cbv zeta. cbv iota beta.
+    rewrite (find_present es t nm (nxt - 1) desc Hs Hu Hv).
+    replace (nxt - 1 + 1) with nxt by lia.
+    assert (Er : remn es desc nxt = remn es desc start - Z.of_nat k) by (unfold nxt; destruct desc; cbn [remn dir]; lia).
+    rewrite IH.
+    + rewrite Er, map_fst_tag, <- app_assoc.
+      rewrite (ceil_div_step (remn es desc start) (Z.of_nat k)) by lia.
+      replace (Z.to_nat (remn es desc start)) with (k + Z.to_nat (remn es desc start - Z.of_nat k))%nat by lia.
+      rewrite zseq_app. fold nxt. rewrite Z.add_assoc. reflexivity.
+    + lia.
+    + intros j Hj1 Hj2.
+      replace (nxt + j * Z.of_nat k * dir desc - 1) with (start + (j + 1) * Z.of_nat k * dir desc - 1) by (unfold nxt; lia).
+      apply Hb; lia.
+    + lia.
+  - rewrite (load_page_last es k desc start Hr Hle). cbv zeta. cbv iota beta.
+    rewrite map_fst_tag, ceil_div_one by lia. reflexivity.
+Qed.
+
+(* THE PAGE WALK: following the next-cursor from the first page visits every position exactly once, in order,
+   in ceil(n/k) pages (one page for an empty board), and ends normally - never out of fuel. *)
+Theorem page_walk_complete es k desc :
+  sorted es -> names_unique es -> (0 < k)%nat -> boundaries_parsable es k desc ->
+  page_walk es k desc = FOk (0, Z.max 1 (ceil_div (lenZ es) (Z.of_nat k)), walk_order es desc).
+Proof.
+  intros Hs Hu Hk Hb. unfold page_walk, wfuel, walk_order.
+  destruct (Z.eq_dec (lenZ es) 0) as [E0|Hn].
+  - assert (es = []) by (apply length_zero_iff_nil; unfold lenZ in E0; lia). subst es.
+    rewrite walk_S. cbn [load_page lenZ length Z.of_nat Z.eqb]. cbv zeta. cbv iota beta.
+    cbn [map app Z.add length].
+    assert (Ec : ceil_div 0 (Z.of_nat k) = 0) by (unfold ceil_div; apply Z.div_small; lia).
+    cbn [lenZ length Z.of_nat]. rewrite Ec. destruct desc; reflexivity.
+  - assert (Hpos : 1 <= lenZ es) by (unfold lenZ in *; lia).
+    set (f := S (S (2 * length es))).
+    assert (E : walk (S f) es k desc (if desc then 0 else 1) 0 [] = walk (S f) es k desc (if desc then lenZ es else 1) 0 []).
+    { destruct desc; [|reflexivity]. rewrite !walk_S.
+      assert (El : load_page es 0 k true = load_page es (lenZ es) k true).
+      { unfold load_page. destruct (Z.eqb_spec (lenZ es) 0); [lia|]. cbn [Z.eqb andb].
+        destruct (Z.eqb_spec (lenZ es) 0); [lia|]. reflexivity. }
+      rewrite El. reflexivity. }
+    rewrite E. clear E.
+    assert (Er : remn es desc (if desc then lenZ es else 1) = lenZ es) by (destruct desc; cbn [remn]; lia).
+    rewrite (walk_from es k desc Hs Hu Hk).
+    + rewrite Er. rewrite Z.max_r by (apply ceil_div_pos; lia). cbn [app Z.add].
+      replace (Z.to_nat (lenZ es)) with (length es) by (unfold lenZ; lia).
+      destruct desc; reflexivity.
+    + lia.
+    + rewrite Er. intros j Hj1 Hj2. specialize (Hb j Hj1 Hj2).
+      destruct desc; cbn [dir]; [replace (lenZ es + j * Z.of_nat k * -1 - 1) with (lenZ es - 1 - j * Z.of_nat k) by lia
+                                |replace (1 + j * Z.of_nat k * 1 - 1) with (j * Z.of_nat k) by lia]; exact Hb.
+    + rewrite Er. unfold f, lenZ. lia.
+Qed.
+
+(* "every entry exactly once": the visited list has no repetition and contains exactly the positions 1..n *)
+Lemma walk_order_once es desc :
+  NoDup (walk_order es desc) /\ (forall i, In i (walk_order es desc) <-> 1 <= i <= lenZ es) /\
+  length (walk_order es desc) = length es.
+Proof.
+  unfold walk_order, up_from, down_from, lenZ. destruct desc.
+  - split; [apply zseq_NoDup; lia|]. split; [|apply zseq_length].
+    intros i. rewrite zseq_In. split; [intros (j & Hj & ->); lia|]. intros Hi. exists (Z.of_nat (length es) - i). lia.
+  - split; [apply zseq_NoDup; lia|]. split; [|apply zseq_length].
+    intros i. rewrite zseq_In. split; [intros (j & Hj & ->); lia|]. intros Hi. exists (i - 1). lia.
+Qed.
+
+Lemma all_parsable_boundaries es k desc : all_parsable es -> boundaries_parsable es k desc.
+Proof. intros Ha j Hj1 Hj2. apply Ha. destruct desc; lia. Qed.
+
+Corollary page_walk_all_valid es k desc :
+  sorted es -> names_unique es -> (0 < k)%nat -> all_parsable es ->
+  page_walk es k desc = FOk (0, Z.max 1 (ceil_div (lenZ es) (Z.of_nat k)), walk_order es desc).
+Proof. intros Hs Hu Hk Ha. apply page_walk_complete; auto. apply all_parsable_boundaries. exact Ha. Qed.
+
+(* ================= totality: no lookup ever fails to return, on any file, sorted or not ================= *)
+Lemma rd_no_hang es i : rd es i <> FHang.
+Proof. unfold rd. destruct (i <? 0); [discriminate|]. destruct (nth_error es (Z.to_nat i)); discriminate. Qed.
+
+(* a loop that starts inside the file reads at most to the end of the file and one step beyond (read error) *)
+Lemma scan_up_no_hang es p b : forall fuel idx,
+  (0 < fuel)%nat -> (0 <= idx -> lenZ es - idx + 1 < Z.of_nat fuel) -> scan_up fuel es idx b p <> FHang.
+Proof.
+  induction fuel as [|f IH]; intros idx Hp Hf; [lia|].
+  cbn [scan_up]. destruct (idx <=? b); [|discriminate].
+  destruct (rd es idx) as [e|c|] eqn:E; [|discriminate|exact (fun _ => rd_no_hang _ _ E)].
+  apply rd_range in E.
+  assert (IHn : scan_up f es (idx + 1) b p <> FHang) by (apply IH; lia).
+  destruct e as [tn|]; [destruct (p tn); [discriminate|exact IHn]|exact IHn].
+Qed.
+
+Lemma scan_down_no_hang es p b : forall fuel idx,
+  (0 < fuel)%nat -> (idx < lenZ es -> idx + 2 < Z.of_nat fuel) -> scan_down fuel es idx b p <> FHang.
+Proof.
+  induction fuel as [|f IH]; intros idx Hp Hf; [lia|].
+  cbn [scan_down]. destruct (b <=? idx); [|discriminate].
+  destruct (rd es idx) as [e|c|] eqn:E; [|discriminate|exact (fun _ => rd_no_hang _ _ E)].
+  apply rd_range in E.
+  assert (IHn : scan_down f es (idx - 1) b p <> FHang) by (apply IH; lia).
+  destruct e as [tn|]; [destruct (p tn); [discriminate|exact IHn]|exact IHn].
+Qed.
+
+Lemma scan_up_lfuel es p b idx : scan_up (lfuel es) es idx b p <> FHang.
+Proof. apply scan_up_no_hang; [apply lfuel_pos|rewrite lfuel_val; lia]. Qed.
+Lemma scan_down_lfuel es p b idx : scan_down (lfuel es) es idx b p <> FHang.
+Proof. apply scan_down_no_hang; [apply lfuel_pos|rewrite lfuel_val; lia]. Qed.
+
+Lemma find_valid_no_hang es idx desc s e : find_valid es idx desc s e <> FHang.
+Proof.
+  unfold find_valid. destruct desc.
+  - pose proof (scan_down_lfuel es (fun _ => true) s idx) as H.
+    destruct (scan_down _ _ _ _ _) as [[r|]|c|]; congruence.
+  - pose proof (scan_up_lfuel es (fun _ => true) e idx) as H.
+    destruct (scan_up _ _ _ _ _) as [[r|]|c|]; congruence.
+Qed.
+
+Lemma lin_down_no_hang es idx ss T name : lin_down es idx ss T name <> FHang.
+Proof.
+  unfold lin_down. pose proof (scan_down_lfuel es (fun tn => ((T =? fst tn) && name_eq name (snd tn)) || (fst tn <? T)) ss idx) as H.
+  destruct (scan_down _ _ _ _ _) as [[[i [t n]]|]|c|]; try congruence.
+  destruct ((T =? t) && name_eq name n); [discriminate|]. destruct name; discriminate.
+Qed.
+Lemma lin_up_no_hang es idx ee T name : lin_up es idx ee T name <> FHang.
+Proof.
+  unfold lin_up. pose proof (scan_up_lfuel es (fun tn => ((T =? fst tn) && name_eq name (snd tn)) || (T <? fst tn)) ee idx) as H.
+  destruct (scan_up _ _ _ _ _) as [[[i [t n]]|]|c|]; try congruence.
+  destruct ((T =? t) && name_eq name n); [discriminate|]. destruct name; discriminate.
+Qed.
+
+Lemma post_desc_no_hang es idx ss ee T name : post_desc es idx ss ee T name <> FHang.
+Proof.
+  unfold post_desc. pose proof (scan_up_lfuel es (fun tn => T <? fst tn) ee idx) as H.
+  destruct (scan_up _ _ _ _ _) as [r|c|]; try congruence.
+  set (i := match r with Some (i, _) => i | None => ee end).
+  pose proof (lin_down_no_hang es i ss T name) as H1. pose proof (lin_down_no_hang es i ss T None) as H2.
+  destruct (lin_down es i ss T name); congruence.
+Qed.
+Lemma post_asc_no_hang es idx ss ee T name : post_asc es idx ss ee T name <> FHang.
+Proof.
+  unfold post_asc. pose proof (scan_down_lfuel es (fun tn => fst tn <? T) ss idx) as H.
+  destruct (scan_down _ _ _ _ _) as [r|c|]; try congruence.
+  set (i := match r with Some (i, _) => i | None => ss end).
+  pose proof (lin_up_no_hang es i ee T name) as H1. pose proof (lin_up_no_hang es i ee T None) as H2.
+  destruct (lin_up es i ee T name); congruence.
+Qed.
+
+(* what a loop that found something has found - no assumption on the bounds *)
+Lemma scan_up_sound es p b : forall fuel idx j tn,
+  scan_up fuel es idx b p = FOk (Some (j, tn)) ->
+  idx <= j <= b /\ vat es j tn /\ (forall i tn', idx <= i < j -> vat es i tn' -> p tn' = false).
+Proof.
+  induction fuel as [|f IH]; intros idx j tn H; [discriminate|].
+  cbn [scan_up] in H. destruct (Z.leb_spec idx b) as [Hle|]; [|discriminate].
+  assert (Hstep : scan_up f es (idx + 1) b p = FOk (Some (j, tn)) -> (forall tn', vat es idx tn' -> p tn' = false) ->
+                  idx <= j <= b /\ vat es j tn /\ (forall i tn', idx <= i < j -> vat es i tn' -> p tn' = false)).
+  { intros Hr Hidx. destruct (IH _ _ _ Hr) as (A & B & C). split; [lia|]. split; [exact B|].
+    intros i tn' Hi Hvi. destruct (Z.eq_dec i idx) as [->|Hne]; [auto|]. apply (C i); [lia|exact Hvi]. }
+  destruct (rd es idx) as [[tn0|]|c|] eqn:E; try discriminate.
+  - destruct (p tn0) eqn:Ep.
+    + inversion H; subst. split; [lia|]. split; [exact E|]. intros; lia.
+    + apply Hstep; [exact H|]. intros tn' Hv. rewrite (vat_fun _ _ _ _ Hv E). exact Ep.
+  - apply Hstep; [exact H|]. intros tn' Hv. unfold vat in Hv. congruence.
+Qed.
+
+Lemma scan_down_sound es p b : forall fuel idx j tn,
+  scan_down fuel es idx b p = FOk (Some (j, tn)) -> b <= j <= idx /\ vat es j tn.
+Proof.
+  induction fuel as [|f IH]; intros idx j tn H; [discriminate|].
+  cbn [scan_down] in H. destruct (Z.leb_spec b idx) as [Hle|]; [|discriminate].
+  assert (Hstep : scan_down f es (idx - 1) b p = FOk (Some (j, tn)) -> b <= j <= idx /\ vat es j tn).
+  { intros Hr. destruct (IH _ _ _ Hr) as (A & B). split; [lia|exact B]. }
+  destruct (rd es idx) as [[tn0|]|c|] eqn:E; try discriminate.
+  - destruct (p tn0); [|exact (Hstep H)]. inversion H; subst. split; [lia|exact E].
+  - exact (Hstep H).
+Qed.
+
+Lemma binsearch_S f es s e T :
+  binsearch (S f) es s e T =
+    let idx := Z.quot (s + e) 2 in
+    match rd es idx with
+    | FErr c => FErr c
+    | FHang => FHang
+    | FOk (Some tn) => bs_cont (fun s' e' => binsearch f es s' e' T) T idx tn s e
+    | FOk None =>
+        if s =? e then FOk (idx, None)
+        else match valid_idx es idx s e with
+             | FOk (idx', tn, s', e') => bs_cont (fun s' e' => binsearch f es s' e' T) T idx' tn s' e'
+             | FErr c => FErr c
+             | FHang => FHang
+             end
+    end.
+Proof. reflexivity. Qed.
+
+(* FindRecordStartIdx does not look at the error of its second end search and then runs the binary search with
+   end = -1 (reachable when the cached total exceeds the file, so that the read at total-1 fails): it stops within
+   two rounds *)
+Lemma binsearch_stale_no_hang es T ss tns f :
+  vat es ss tns -> (forall i tn, 0 <= i < ss -> ~ vat es i tn) -> binsearch (S (S f)) es ss (-1) T <> FHang.
+Proof.
+  intros Hv Hfirst. pose proof (vat_range _ _ _ Hv) as Hr.
+  rewrite binsearch_S. cbv zeta.
+  destruct (Z.eq_dec ss 0) as [->|Hne].
+  - change (Z.quot (0 + -1) 2) with 0. unfold vat in Hv. rewrite Hv. unfold bs_cont.
+    destruct (wrap32 (T - fst tns) =? 0); [discriminate|].
+    change (-1 =? 0) with false. change (0 =? 0) with true. cbv iota.
+    rewrite binsearch_S. cbv zeta. change (Z.quot (-1 + -1) 2) with (-1). cbn [rd Z.ltb Z.compare]. discriminate.
+  - assert (Hq : 0 <= Z.quot (ss + -1) 2 < ss) by lia.
+    set (i0 := Z.quot (ss + -1) 2) in *.
+    destruct (rd_total es i0) as [e0 He0]; [lia|]. rewrite He0.
+    destruct e0 as [tn|]; [destruct (Hfirst i0 tn Hq He0)|].
+    destruct (Z.eqb_spec ss (-1)); [lia|].
+    unfold valid_idx. destruct (Z.eqb_spec i0 ss); [lia|]. destruct (Z.eqb_spec i0 (-1)); [lia|].
+    unfold find_valid, lfuel. cbn [scan_up]. destruct (Z.leb_spec i0 (-1)); [lia|]. cbn [fbind]. discriminate.
+Qed.
+
+Lemma find_no_hang es total T name desc : find es total T name desc <> FHang.
+Proof.
+  unfold find.
+  destruct (find_valid es 0 false 0 (total - 1)) as [[ss tns]|c|] eqn:E1;
+    [|discriminate|exact (fun _ => find_valid_no_hang _ _ _ _ _ E1)].
+  assert (Hss : 0 <= ss /\ vat es ss tns /\ (forall i tn, 0 <= i < ss -> ~ vat es i tn)).
+  { unfold find_valid in E1.
+    destruct (scan_up (lfuel es) es 0 (total - 1) (fun _ => true)) as [[[j tn]|]|c|] eqn:EU; try discriminate.
+    inversion E1; subst. destruct (scan_up_sound _ _ _ _ _ _ _ EU) as (A & B & C).
+    split; [lia|]. split; [exact B|]. intros i tn' Hi Hvi. specialize (C i tn' Hi Hvi). discriminate. }
+  destruct Hss as (Hss0 & Hvs & Hfirst).
+  assert (HB : forall ee, match find_valid es (total - 1) true ss (total - 1) with
+                          | FOk (i, _) => FOk i | FErr _ => FOk (-1) | FHang => FHang end = FOk ee ->
+                          binsearch (bfuel es) es ss ee T <> FHang).
+  { intros ee Hee. destruct (find_valid es (total - 1) true ss (total - 1)) as [[i tne]|c|] eqn:E2; [| |discriminate].
+    - inversion Hee; subst. unfold find_valid in E2.
+      destruct (scan_down (lfuel es) es (total - 1) ss (fun _ => true)) as [[[j tn]|]|c|] eqn:ED; try discriminate.
+      inversion E2; subst. destruct (scan_down_sound _ _ _ _ _ _ _ ED) as (A & B).
+      pose proof (vat_range _ _ _ B) as Hr.
+      destruct (binsearch_in_range_terminates es T ss ee Hss0 ltac:(lia) ltac:(lia) (ex_intro _ tns Hvs) (ex_intro _ tne B))
+        as (idx & tn & EB & _). rewrite EB. discriminate.
+    - inversion Hee; subst. unfold bfuel. apply (binsearch_stale_no_hang es T ss tns _ Hvs Hfirst). }
+  destruct (match find_valid es (total - 1) true ss (total - 1) with
+            | FOk (i, _) => FOk i | FErr _ => FOk (-1) | FHang => FHang end) as [ee|c|] eqn:E2.
+  - specialize (HB ee eq_refl).
+    destruct (binsearch (bfuel es) es ss ee T) as [[idx [[t n]|]]|c|]; [|discriminate|discriminate|congruence].
+    destruct ((T =? t) && match name with Some m => n =? m | None => false end); [discriminate|].
+    destruct desc.
+    + pose proof (post_desc_no_hang es idx ss ee T name) as H. destruct (post_desc es idx ss ee T name); cbn [fbind]; congruence.
+    + pose proof (post_asc_no_hang es idx ss ee T name) as H. destruct (post_asc es idx ss ee T name); cbn [fbind]; congruence.
+  - discriminate.
+  - destruct (find_valid es (total - 1) true ss (total - 1)) as [[i tne]|c|] eqn:E3; try discriminate.
+    exact (fun _ => find_valid_no_hang _ _ _ _ _ E3).
+Qed.
+
+Lemma get_record_no_hang es total T nm : get_record es total T nm <> FHang.
+Proof.
+  unfold get_record. pose proof (find_no_hang es total T (Some nm) true) as H.
+  destruct (find es total T (Some nm) true) as [idx|c|]; cbn [fbind]; [|discriminate|congruence].
+  pose proof (rd_no_hang es (idx - 1)) as H1. destruct (rd es (idx - 1)) as [e|c|]; cbn [fbind]; [|discriminate|congruence].
+  destruct e as [[t n]|]; [destruct ((t =? T) && (n =? nm))|]; discriminate.
+Qed.
+
+Lemma get_records_no_hang es start n desc : get_records es start n desc <> FHang.
+Proof. unfold get_records. destruct (start <? 1); discriminate. Qed.
+
+Theorem no_hang es total T name nm desc start n :
+  find es total T name desc <> FHang /\ get_record es total T nm <> FHang /\ get_records es start n desc <> FHang.
+Proof. split; [apply find_no_hang|]. split; [apply get_record_no_hang|apply get_records_no_hang]. Qed.
+
+(* ---- non-vacuity of the page-walk theorem and of its hypotheses ---- *)
+Example zseq_shapes : up_from 1 3 = [1; 2; 3] /\ down_from 3 3 = [3; 2; 1] /\ ceil_div 7 4 = 2 /\ ceil_div 8 4 = 2 /\ ceil_div 9 4 = 3.
+Proof. vm_compute. auto. Qed.
+
+(* ex_file has unparsable entries (positions 0, 3, 6) and two entries with the same creation time; with pages of 4
+   the only page boundary falls on a parsable entry in both directions - descending on the second of the two
+   equal-time entries, where only the name tells the cursor's entry from its neighbour *)
+Example ex_file_boundaries : boundaries_parsable ex_file 4 true /\ boundaries_parsable ex_file 4 false.
+Proof.
+  split; intros j Hj1 Hj2; change (lenZ ex_file) with 7 in *; change (Z.of_nat 4) with 4 in *;
+    assert (j = 1) by lia; subst j; cbn [Z.mul Z.sub Z.add Z.opp Z.pos_sub Pos.mul Pos.add Pos.pred_double].
+  - exists (10, 2). reflexivity.
+  - exists (12, 3). reflexivity.
+Qed.
+Example ex_file_walk_complete :
+  page_walk ex_file 4 true = FOk (0, 2, [7; 6; 5; 4; 3; 2; 1]) /\ page_walk ex_file 4 false = FOk (0, 2, [1; 2; 3; 4; 5; 6; 7]).
+Proof.
+  split.
+  - exact (page_walk_complete ex_file 4 true ex_file_sorted ex_file_unique ltac:(lia) (proj1 ex_file_boundaries)).
+  - exact (page_walk_complete ex_file 4 false ex_file_sorted ex_file_unique ltac:(lia) (proj2 ex_file_boundaries)).
+Qed.
+
+(* the hypothesis is exactly what the refuted walk lacks: in [article; deleted; article], pages of 1, newest
+   first, the second page would have to start on the deleted entry *)
+Example refuted_file_boundary : ~ boundaries_parsable [Some (10, 1); None; Some (11, 2)] 1 true.
+Proof. intros H. destruct (H 1 ltac:(lia) ltac:(cbn; lia)) as [tn Hv]. cbn in Hv. discriminate. Qed.
+
+(* a file without unparsable entries, two of them at the same time: every page size, both directions *)
+Definition ex_valid_file : list entry := [Some (10, 1); Some (10, 2); Some (12, 3)].
+Lemma ex_valid_file_vat i tn : vat ex_valid_file i tn -> (i = 0 /\ tn = (10, 1)) \/ (i = 1 /\ tn = (10, 2)) \/ (i = 2 /\ tn = (12, 3)).
+Proof.
+  intros H. pose proof (vat_range _ _ _ H) as Hr. cbn in Hr. apply rd_Some_nth in H.
+  assert (Hc : i = 0 \/ i = 1 \/ i = 2) by lia.
+  destruct Hc as [->|[->| ->]]; cbn in H; inversion H; subst; tauto.
+Qed.
+Example ex_valid_file_ok : sorted ex_valid_file /\ names_unique ex_valid_file /\ all_parsable ex_valid_file.
+Proof.
+  split; [|split].
+  - intros i j ti tj Hij Hi Hj. apply ex_valid_file_vat in Hi. apply ex_valid_file_vat in Hj.
+    destruct Hi as [[-> ->]|[[-> ->]|[-> ->]]]; destruct Hj as [[-> ->]|[[-> ->]|[-> ->]]]; cbn; lia.
+  - intros i j tn Hi Hj. apply ex_valid_file_vat in Hi. apply ex_valid_file_vat in Hj.
+    destruct Hi as [[-> ->]|[[-> ->]|[-> ->]]]; destruct Hj as [[-> E]|[[-> E]|[-> E]]]; try reflexivity; discriminate.
+  - intros i Hi. change (lenZ ex_valid_file) with 3 in Hi.
+    assert (Hc : i = 0 \/ i = 1 \/ i = 2) by lia.
+    destruct Hc as [->|[->| ->]]; eexists; reflexivity.
+Qed.
+Example ex_valid_file_walks : forall k desc, (0 < k)%nat ->
+  page_walk ex_valid_file k desc = FOk (0, Z.max 1 (ceil_div 3 (Z.of_nat k)), if desc then [3; 2; 1] else [1; 2; 3]).
+Proof.
+  intros k desc Hk. destruct ex_valid_file_ok as (Hs & Hu & Ha).
+  rewrite (page_walk_all_valid ex_valid_file k desc Hs Hu Hk Ha). destruct desc; reflexivity.
+Qed.
+
+(* names_unique cannot be dropped: with three entries carrying the same file name the cursor of the second page
+   resolves to an entry already served and the walk never ends (sorted and all parsable, yet out of fuel) *)
+Example walk_needs_unique_names :
+  let es := [Some (10, 1); Some (10, 1); Some (10, 1)] in
+  all_parsable es /\ ~ names_unique es /\ page_walk es 1 false = FHang.
+Proof.
+  cbv zeta. split; [|split].
+  - intros i Hi. change (lenZ [Some (10, 1); Some (10, 1); Some (10, 1)]) with 3 in Hi.
+    assert (Hc : i = 0 \/ i = 1 \/ i = 2) by lia.
+    destruct Hc as [->|[->| ->]]; eexists; reflexivity.
+  - intros Hu. specialize (Hu 0 1 (10, 1) eq_refl eq_refl). discriminate.
+  - vm_compute. reflexivity.
+Qed.
+
+(* totality on inputs outside every other theorem: an unsorted file, and a cached total beyond the file (the
+   second end search fails, its error is dropped, the binary search runs with end = -1) *)
+Example no_hang_instances :
+  find [Some (12, 1); Some (10, 2); None; Some (11, 3)] 4 11 (Some 3) false = FOk 4 /\
+  find [None; Some (10, 1)] 5 10 None true = FErr E_NOTFOUND /\
+  find [Some (10, 1)] 5 12 None true = FErr E_SEEK.
+Proof. vm_compute. auto. Qed.
+
+(* ---- without the hypothesis on page boundaries: the walk still ends, on a prefix of the order ---- *)
+Lemma getl_some es i tn : getl es i = Some tn -> vat es (i - 1) tn.
+Proof. unfold getl, vat. destruct (rd es (i - 1)) as [e|c|]; try discriminate. intros ->. reflexivity. Qed.
+
+Lemma walk_from_any es k desc : sorted es -> names_unique es -> (0 < k)%nat ->
+  forall fuel start pages acc,
+    1 <= remn es desc start <= lenZ es -> remn es desc start <= Z.of_nat fuel ->
+    exists code pg m,
+      walk fuel es k desc start pages acc = FOk (code, pg, acc ++ zseq (dir desc) start m) /\
+      ((code = 0 /\ m = Z.to_nat (remn es desc start)) \/ (code = E_ATOI /\ (m < Z.to_nat (remn es desc start))%nat)).
+Proof.
+  intros Hs Hu Hk. induction fuel as [|f IH]; intros start pages acc Hr Hf; [lia|].
+  rewrite walk_S.
+  destruct (Z_lt_le_dec (Z.of_nat k) (remn es desc start)) as [Hlt|Hle].
+  - rewrite (load_page_full es k desc start Hr Hlt).
+    set (nxt := start + Z.of_nat k * dir desc).
+    assert (Er : remn es desc nxt = remn es desc start - Z.of_nat k) by (unfold nxt; destruct desc; cbn [remn dir]; lia).
+    unfold tag at 2. destruct (getl es nxt) as [[t nm]|] eqn:Eg; cbv zeta; cbv iota beta; rewrite map_fst_tag.
+    + apply getl_some in Eg. rewrite (find_present es t nm (nxt - 1) desc Hs Hu Eg).
+      replace (nxt - 1 + 1) with nxt by lia.
+      destruct (IH nxt (pages + 1) (acc ++ zseq (dir desc) start k) ltac:(lia) ltac:(lia)) as (code & pg & m & E & Hc).
+      exists code, pg, (k + m)%nat. rewrite E, <- app_assoc, zseq_app. fold nxt. split; [reflexivity|].
+      rewrite Er in Hc. destruct Hc as [[-> ->]|[-> Hm]]; [left|right]; split; try reflexivity; lia.
+    + exists E_ATOI, (pages + 1), k. split; [reflexivity|]. right. split; [reflexivity|lia].
+  - rewrite (load_page_last es k desc start Hr Hle). cbv zeta. cbv iota beta. rewrite map_fst_tag.
+    exists 0, (pages + 1), (Z.to_nat (remn es desc start)). split; [reflexivity|]. left. split; reflexivity.
+Qed.
+
+Lemma zseq_firstn_le d a m len : (m <= len)%nat -> firstn m (zseq d a len) = zseq d a m.
+Proof. intros H. replace len with (m + (len - m))%nat by lia. apply zseq_firstn. Qed.
+
+(* Every walk over a sorted file with unique names ends: either normally after all n positions, or with the
+   strconv error of an unparsable page-boundary entry after a proper prefix of them - never out of fuel, never any
+   other error, never a position twice or out of order. *)
+Theorem page_walk_terminates es k desc :
+  sorted es -> names_unique es -> (0 < k)%nat ->
+  exists code pg m,
+    page_walk es k desc = FOk (code, pg, firstn m (walk_order es desc)) /\
+    ((code = 0 /\ m = length es) \/ (code = E_ATOI /\ (m < length es)%nat)).
+Proof.
+  intros Hs Hu Hk. unfold page_walk, wfuel.
+  destruct (Z.eq_dec (lenZ es) 0) as [E0|Hn].
+  - assert (es = []) by (apply length_zero_iff_nil; unfold lenZ in E0; lia). subst es.
+    exists 0, 1, 0%nat. split; [|left; split; reflexivity]. destruct desc; reflexivity.
+  - assert (Hpos : 1 <= lenZ es) by (unfold lenZ in *; lia).
+    set (f := S (S (2 * length es))).
+    assert (E : walk (S f) es k desc (if desc then 0 else 1) 0 [] = walk (S f) es k desc (if desc then lenZ es else 1) 0 []).
+    { destruct desc; [|reflexivity]. rewrite !walk_S.
+      assert (El : load_page es 0 k true = load_page es (lenZ es) k true).
+      { unfold load_page. destruct (Z.eqb_spec (lenZ es) 0); [lia|]. cbn [Z.eqb andb].
+        destruct (Z.eqb_spec (lenZ es) 0); [lia|]. reflexivity. }
+      rewrite El. reflexivity. }
+    rewrite E. clear E.
+    assert (Er : remn es desc (if desc then lenZ es else 1) = lenZ es) by (destruct desc; cbn [remn]; lia).
+    destruct (walk_from_any es k desc Hs Hu Hk (S f) (if desc then lenZ es else 1) 0 [] ltac:(lia) ltac:(rewrite Er; unfold f, lenZ; lia))
+      as (code & pg & m & E & Hc).
+    rewrite Er in Hc. replace (Z.to_nat (lenZ es)) with (length es) in Hc by (unfold lenZ; lia).
+    exists code, pg, m. split; [|exact Hc]. rewrite E. cbn [app]. do 2 f_equal.
+    unfold walk_order, up_from, down_from. destruct desc; cbn [dir]; rewrite zseq_firstn_le by lia; reflexivity.
+Qed.
+
+Example refuted_file_terminates :
+  page_walk [Some (10, 1); None; Some (11, 2)] 1 true = FOk (E_ATOI, 1, firstn 1 (walk_order [Some (10, 1); None; Some (11, 2)] true)).
+Proof. vm_compute. reflexivity. Qed.
